@@ -2,6 +2,8 @@ package main
 
 import (
 	"fmt"
+	"go/token"
+	"os"
 	"strings"
 
 	"golang.org/x/tools/go/ssa"
@@ -39,6 +41,7 @@ func RunSolveR1C(p *Prog, r *Report) {
 			}
 			// blocks that discharge: pass successors of Equal checks; blocks computing `wire` via Div / Mul
 			discharge := map[int]bool{}
+			dischargeEdge := map[[2]int]bool{}
 			nEq, nComp := 0, 0
 			canAccept := g.backward(g.acceptingEnds())
 			for _, b := range fn.Blocks {
@@ -57,7 +60,7 @@ func RunSolveR1C(p *Prog, r *Report) {
 								if !canAccept[t0] {
 									pass = t1
 								}
-								discharge[pass] = true
+								dischargeEdge[[2]int{b.Index, pass}] = true
 								nEq++
 							} else if canAccept[t0] {
 								// both accept: the check does not gate acceptance
@@ -70,6 +73,10 @@ func RunSolveR1C(p *Prog, r *Report) {
 					}
 				}
 			}
+			// infeasible edges: `switch loc` without default where loc ranges over a finite set of constants
+			for e := range infeasibleSwitchEdges(fn) {
+				dischargeEdge[e] = true
+			}
 			// reachability from entry avoiding discharge nodes
 			seen := make([]bool, len(g.nodes))
 			var work []int
@@ -81,7 +88,7 @@ func RunSolveR1C(p *Prog, r *Report) {
 				x := work[len(work)-1]
 				work = work[:len(work)-1]
 				for _, y := range g.nodes[x].succs {
-					if seen[y] || discharge[y] {
+					if seen[y] || discharge[y] || dischargeEdge[[2]int{x, y}] {
 						continue
 					}
 					seen[y] = true
@@ -92,6 +99,12 @@ func RunSolveR1C(p *Prog, r *Report) {
 			for _, a := range g.acceptingEnds() {
 				if seen[a] {
 					bad = p.Pos(lastInstr(g.nodes[a].blk).Pos())
+				}
+			}
+			if os.Getenv("R1CDBG") != "" {
+				fmt.Println("R1CDBG", pkg, "discharge", discharge, "accepting", g.acceptingEnds(), "nEq", nEq, "nComp", nComp)
+				for i, n := range g.nodes {
+					fmt.Printf("  node %d class=%d succs=%v seen=%v\n", i, n.class, n.succs, seen[i])
 				}
 			}
 			key := "nil-returns"
@@ -142,4 +155,126 @@ func RunSolveR1C(p *Prog, r *Report) {
 			}
 		}
 	}
+}
+
+// infeasibleSwitchEdges: for a variable cell that only ever holds constants from a finite set S (zero value, constants
+// stored directly, constants passed to a closure parameter that is stored into it), the false edge of a test
+// `cell == k` is infeasible once every value of S has been excluded by that test and the dominating tests whose
+// false edges lead to it.
+func infeasibleSwitchEdges(fn *ssa.Function) map[[2]int]bool {
+	out := map[[2]int]bool{}
+	type test struct {
+		blk  *ssa.BasicBlock
+		k    int64
+		cell *ssa.Alloc
+	}
+	var tests []test
+	for _, b := range fn.Blocks {
+		iff, ok := lastInstr(b).(*ssa.If)
+		if !ok {
+			continue
+		}
+		bo, ok := iff.Cond.(*ssa.BinOp)
+		if !ok || bo.Op != token.EQL {
+			continue
+		}
+		ld, ok := bo.X.(*ssa.UnOp)
+		k, ok2 := bo.Y.(*ssa.Const)
+		if !ok || !ok2 || ld.Op != token.MUL || k.Value == nil {
+			continue
+		}
+		cell, ok := ld.X.(*ssa.Alloc)
+		if !ok {
+			continue
+		}
+		tests = append(tests, test{b, k.Int64(), cell})
+	}
+	values := func(cell *ssa.Alloc) (map[int64]bool, bool) {
+		S := map[int64]bool{0: true}
+		okAll := true
+		var scan func(f *ssa.Function, cellV ssa.Value)
+		scan = func(f *ssa.Function, cellV ssa.Value) {
+			for _, b := range f.Blocks {
+				for _, ins := range b.Instrs {
+					st, ok := ins.(*ssa.Store)
+					if !ok || st.Addr != cellV {
+						continue
+					}
+					switch v := st.Val.(type) {
+					case *ssa.Const:
+						if v.Value != nil {
+							S[v.Int64()] = true
+						}
+					case *ssa.Parameter:
+						// constants passed at the call sites of this closure
+						cl := v.Parent()
+						idx := paramIndex(v)
+						found := false
+						for _, pb := range fn.Blocks {
+							for _, pi := range pb.Instrs {
+								c, ok := pi.(*ssa.Call)
+								if !ok {
+									continue
+								}
+								mc, ok := c.Call.Value.(*ssa.MakeClosure)
+								if !ok || mc.Fn != cl || idx >= len(c.Call.Args) {
+									continue
+								}
+								if kc, ok := c.Call.Args[idx].(*ssa.Const); ok && kc.Value != nil {
+									S[kc.Int64()] = true
+									found = true
+								} else {
+									okAll = false
+								}
+							}
+						}
+						if !found {
+							okAll = false
+						}
+					default:
+						okAll = false
+					}
+				}
+			}
+		}
+		scan(fn, cell)
+		for _, a := range fn.AnonFuncs {
+			for i, fv := range a.FreeVars {
+				for _, b := range fn.Blocks {
+					for _, ins := range b.Instrs {
+						if mc, ok := ins.(*ssa.MakeClosure); ok && mc.Fn == a && i < len(mc.Bindings) && mc.Bindings[i] == ssa.Value(cell) {
+							scan(a, fv)
+						}
+					}
+				}
+			}
+		}
+		return S, okAll
+	}
+	for _, t := range tests {
+		S, ok := values(t.cell)
+		if !ok {
+			continue
+		}
+		excl := map[int64]bool{t.k: true}
+		for _, d := range tests {
+			if d.cell != t.cell || d.blk == t.blk {
+				continue
+			}
+			fs := d.blk.Succs[1]
+			if fs == t.blk || fs.Dominates(t.blk) {
+				excl[d.k] = true
+			}
+		}
+		all := true
+		for v := range S {
+			if !excl[v] {
+				all = false
+			}
+		}
+		if all {
+			out[[2]int{t.blk.Index, t.blk.Succs[1].Index}] = true
+		}
+	}
+	return out
 }
